@@ -112,16 +112,16 @@ proof fn lemma_spawn_once(t: Seq<Ev>, a: Seq<Seq<char>>, st: ExitStatus)
 // ---------------------------------------------------------------- stand-in types (fields outside Verus' reach are dropped)
 pub struct Repository { pub pre_command_base_commit: Option<String>, pub _opaque: () }
 pub enum GitAiError { Generic(String) }
-pub struct VirtualAttributions { pub _opaque: () }
+#[verifier::external_body] pub struct VirtualAttributions { _o: () }
 #[verifier::external_type_specification]
 #[verifier::external_body]
 #[verifier::reject_recursive_types(T)]
 pub struct ExJoinHandle<T>(std::thread::JoinHandle<T>);
-pub struct InternalGitHooksGuard { pub _opaque: () }
+#[verifier::external_body] pub struct InternalGitHooksGuard { _o: () }
 #[verifier::external_body]
 pub struct PanicPayload { _o: () }
-pub struct Instant { pub _opaque: () }
-pub struct Duration { pub _opaque: () }
+#[verifier::external_body] pub struct Instant { _o: () }
+#[verifier::external_body] pub struct Duration { _o: () }
 impl Instant {
     #[verifier::external_body] pub fn now() -> Instant { unimplemented!() }
     #[verifier::external_body] pub fn elapsed(&self) -> Duration { unimplemented!() }
@@ -419,7 +419,7 @@ pub mod clone_hooks { use super::*;
 }
 pub struct FeatureFlags { pub rewrite_stash: bool }
 pub mod config { use super::*;
-    pub struct Config { pub _opaque: () }
+    #[verifier::external_body] pub struct Config { _o: () }
     impl Config {
         #[verifier::external_body] pub fn get() -> (r: &'static Config) { unimplemented!() }
         #[verifier::external_body] pub fn feature_flags(&self) -> (r: &FeatureFlags) ensures r.rewrite_stash == rewrite_stash_flag(), { unimplemented!() }
